@@ -208,8 +208,8 @@ int main(void)
     while (fgets(line, sizeof line, stdin)) {
         char *save, *tok = strtok_r(line, " \n", &save);
         if (!tok || strcmp(tok, "C")) continue;
-        char *wls = strtok_r(NULL, " \n", &save); int ri = 0, rf = 0;
-        while ((tok = strtok_r(NULL, " \n", &save))) { if (!strcmp(tok, "ri")) ri = 1; if (!strcmp(tok, "rf")) rf = 1; }
+        char *wls = strtok_r(NULL, " \n", &save); int ri = 0, rf = 0, dw = 0;
+        while ((tok = strtok_r(NULL, " \n", &save))) { if (!strcmp(tok, "ri")) ri = 1; if (!strcmp(tok, "rf")) rf = 1; if (!strcmp(tok, "dw")) dw = 1; }
         cyc++; c19_cycle = cyc;
         alarm(60);
         phase = "initialize";
@@ -244,6 +244,17 @@ int main(void)
             qthread_fork(t_fin, NULL, &r); qthread_readFF(NULL, &r);
             pthread_create(&th, NULL, p_fin, NULL); pthread_join(th, NULL);
             rf_ok = qlib == q0 && qlib != NULL && wl_spawn();
+        }
+        if (dw) {          /* finalize with an individually disabled worker (index >= 1 of an enabled shepherd): finalize has to
+                            * wake it so that it takes its terminator; the runtime is used once more so that the worker has
+                            * gone round its loop and really sits in its inactive wait */
+            phase = "disable-worker";
+            int ns_ = (int)qthread_num_shepherds(), nw_ = (int)qthread_num_workers();
+            if (nw_ > ns_) {
+                qthread_disable_worker((qthread_worker_id_t)(nw_ - 1));
+                for (int k = 0; k < 3; k++) if (!wl_spawn()) smoke = 0;
+                usleep(20000);
+            }
         }
         printf("Y cycle=%d sheps=%d workers=%d threads_run=%d io_workers_run=%ld smoke=%d wl_bad=%s ri_ok=%d ri_why=%d rf_ok=%d\n", cyc,
                (int)qthread_num_shepherds(), (int)qthread_num_workers(), thr_run, c19_io_workers(), smoke, bad[0] ? bad : "-", ri_ok, ri_why, rf_ok);
